@@ -52,7 +52,10 @@ EXERCISED = (
     "positionally; a shutdown() cancelled half-way and called again; the log level changed at "
     "run time, also between two segments of a frame; one callable registered on a zone and on "
     "the AC owning it; status pushed by the console during the handshake; held commands that "
-    "expire during a long outage; long host names and serials in discovery answers")
+    "expire during a long outage; long host names and serials in discovery answers; an eager "
+    "task factory on the loop; close() directly after send(); update checks submitted while "
+    "init() is still waiting for the console; hours of heartbeat silence; caller-supplied "
+    "headers with every meaningful address")
 
 T = """You are helping to evaluate a verification harness by producing a *subtle, realistic regression* in a Python library.
 
